@@ -53,6 +53,14 @@ class PyGuard:
         self.c, self.val = c, val
 
 
+class PyPoison:
+    """a value the model cannot type (e.g. `d.pop(k, None)` of a dict of dicts): fine while it is discarded, Unsupported on any use"""
+    __slots__ = ("why",)
+
+    def __init__(self, why):
+        self.why = why
+
+
 class PyCat:
     """concatenation of literals / conditionals whose sequence type is fixed later (by coercion)"""
     __slots__ = ("a", "b")
@@ -95,6 +103,8 @@ def lift(c):
         return PyTup([lift(x) for x in c])
     if isinstance(c, list):
         return PyTup([lift(x) for x in c], True)
+    if isinstance(c, PyPoison):
+        raise Unsupported("use of %s" % c.why)
     raise Unsupported("constant %r" % (c,))
 
 
